@@ -63,6 +63,16 @@ def run(chk: core.Check):
     for r in recs:
         if r["diff"] and not report(chk, r):
             unattributed += 1
+    # the same claims on what parse_string returns with the DEFAULT stack (values are transformed there, raw texts,
+    # start lines and field lines are not): reference-heavy derivations and packed documents
+    from .. import docgen
+    from . import c05
+    docs = [c05.refdoc(rnd) for _ in range(ngarb // 6)] + [docgen.random_doc(rnd, rnd.randint(1, 6)).text for _ in range(ngarb // 6)] + packed[: ngarb // 6]
+    recs = splitpipe.t3(chk, bib, docs, how="default")
+    chk.clause("T3.default_stack(tiling, start_line, field_line)", len(docs))
+    for r in recs:
+        if r["diff"] and not report(chk, r):
+            unattributed += 1
     chk.extra["unattributed_conformance_differences"] = unattributed
     chk.assumptions += ["the end offset of a failed block is free within (start, next block start] (C03 fixes tiling only)",
                         "field start_line is compared only when the key and '=' are on one line"]
